@@ -132,6 +132,10 @@ def run(f, fixture, rep, cfg, tier):
         got = render(tcb.term(fs[0].args[0]))
         rep.check(got == (cb.local_name(2) or "_2"), "R3", "caps|verbatim", "caps() passes the caller's text unchanged",
                   "caps() passes %s to FileCaps, not the text it was given: the stored capability text differs from the caller's" % got[:160], fs[0].loc())
+    # every successful caps() call went through the validator (no shortcut for "blank" or otherwise special text)
+    oks_cb = ok_assign_blocks(cb)
+    rep.check(bool(fs) and bool(oks_cb) and all(any(cb.dominates(c_.bb, o_) for c_ in fs) for o_ in oks_cb), "R2", "caps|always-validates",
+              "caps() returns Ok only after FileCaps validated the text", "caps() can return Ok without validating the text (a path to Ok bypasses FileCaps::from_str)", cb.span)
     rep.check(errs == {"InvalidCapabilities"}, "R4", "caps|error-mapping", "caps() reports InvalidCapabilities", "caps() error exits are %s" % sorted(map(str, errs)), cb.span)
 
     # ---- R5 tables --------------------------------------------------------------------------------
